@@ -39,7 +39,11 @@ def run_case(run, drv, case):
             return
         state = {rel: b.bytes() for rel, b in files}
         ref = rc.reference(raw, case["single"], state, files)
-        if not all(ok for ok, _ in ref) or sum(s for _, s in ref) != total:
+        pads = 0
+        if case["version"] == 1 and (case.get("align") or case.get("attrs")):
+            info0 = refspec.lenient_decode(raw)[b"info"]
+            pads = sum(e[b"length"] for e in info0.get(b"files", []) if b"p" in e.get(b"attr", b""))
+        if not all(ok for ok, _ in ref) or sum(s for _, s in ref) != total + pads:
             # our own reference does not accept the metafile: only a violation when
             # torrentfile wrote it (creation properties report that); skip here
             if case["source"] == "own":
